@@ -207,8 +207,11 @@ func (d *PathDecoder) hoverContentForBlock(bType string, schema *schema.BlockSch
 	}
 }
 
-func hoverContentForReferenceTarget(ctx context.Context, ref reference.Target, pos hcl.Pos) (string, error) {
-	content := fmt.Sprintf("`%s`", ref.Address(ctx, pos))
+func hoverContentForReferenceTarget(ctx context.Context, ref reference.Target, filename string, pos hcl.Pos) (string, error) {
+	// the local address (e.g. self.*) is only shown within the range
+	// the target is targetable from, which belongs to a particular file
+	addr := referenceCandidateAddress(ctx, ref, hcl.Range{Filename: filename, Start: pos, End: pos})
+	content := fmt.Sprintf("`%s`", addr)
 
 	var friendlyName string
 	if ref.Type != cty.NilType {
